@@ -303,6 +303,20 @@ func (uv *UtxoVM) UpdateUtxoTotal(delta *big.Int, batch kvdb.Batch, inc bool) {
 	batch.Put(append([]byte(pb.MetaTablePrefix), []byte(UTXOTotalKey)...), uv.utxoTotal.Bytes())
 }
 
+// ReloadUtxoTotal re-reads the persisted total, dropping the increments of a batch that was never written
+func (uv *UtxoVM) ReloadUtxoTotal() error {
+	utxoTotalBytes, findErr := uv.metaHandle.MetaTable.Get([]byte(UTXOTotalKey))
+	if findErr != nil {
+		if def.NormalizedKVError(findErr) != def.ErrKVNotFound {
+			return findErr
+		}
+		uv.utxoTotal = big.NewInt(0)
+		return nil
+	}
+	uv.utxoTotal = big.NewInt(0).SetBytes(utxoTotalBytes)
+	return nil
+}
+
 // parseUtxoKeys extract (txid, offset) from key of utxo item
 func (uv *UtxoVM) parseUtxoKeys(uKey string) ([]byte, int, error) {
 	keyTuple := strings.Split(uKey[1:], "_") // [1:] 是为了剔除表名字前缀
